@@ -423,8 +423,15 @@ class CommandManager(object):
 
     dispatch_dict = {'get':get_prop, 'set':set_prop}
 
+    def _bind_solver_method(name, solver_method=solver_method):
+        # solver_method() needs the name of the method it is to call
+        @wraps(solver_method)
+        def call(self, *args, **kwargs):
+            return solver_method(self, name, *args, **kwargs)
+        return call
+
     for meth in solver_methods:
-        dispatch_dict[meth] = solver_method
+        dispatch_dict[meth] = _bind_solver_method(meth)
 
     for meth in lazy_methods:
         dispatch_dict[meth] = locals()[meth]
